@@ -203,7 +203,10 @@ def module_text(ir, k, nstmts=None):
     return "\n".join(out) + "\n"
 
 
-BUILTIN_CLASSES = "[Type, Object, Nil, Bool, Num, Func, BuiltIn, Method, BuiltInMethod, String, Iter, MapIter, FilterIter, Tuple, Vec, HashMap, Fiber]"
+# every name a main script gets without importing anything: the classes of the built-in types, and the classes the core
+# library defines (the iterator adaptors, Error and its subclasses, StopIter)
+BUILTIN_CLASSES = ("[Type, Object, Nil, Bool, Num, Func, BuiltIn, Method, BuiltInMethod, String, Iter, MapIter, FilterIter, Tuple, Vec, HashMap, Fiber, "
+                   "Error, RuntimeError, AttributeError, IndexError, ImportError, NameError, TypeError, ValueError, StopIter]")
 
 
 def render(ir):
@@ -511,7 +514,7 @@ def model(ir, tape, faults, chooser=None):
                     isos[k] += 1
                     ev.append([s("iso"), num(k), cls("NameError"), tup(b(True), num(2), num(2), num(4)), num(k),
                                cls("NameError"), cls("NameError"), tup(num(5000 + k), num(6000 + k)),
-                               num(1 + isos[k]), num(2 * isos[k]), b(True), num(1717 if k % 2 == 0 else 1617), tup(b(True), b(True), b(True), b(True), b(True)),
+                               num(1 + isos[k]), num(2 * isos[k]), b(True), num(2626 if k % 2 == 0 else 2526), tup(b(True), b(True), b(True), b(True), b(True)),
                                b(k % 2 == 0), b(k % 2 == 1)])
                     ev.append([s("attr2"), num(k), cls("AttributeError")])
                     ev.append([s("attr"), num(k), cls("AttributeError")])
